@@ -462,6 +462,43 @@ func runC05(args []string) int {
 		p := GenProg(rng, q, GenCfg{MaxOps: 4, Kinds: noHintKinds})
 		progs = append(progs, p)
 	}
+	// multi-call motifs (sharing, repeated sums with proportional coefficients and a constant, cancellation ...): the
+	// emitted constraints of a call may depend on what earlier calls recorded (gate re-use tables, boolean marks)
+	rngM := NewRNG(o.Seed + 4242)
+	nmotif := 24
+	if o.Thorough() {
+		nmotif = 200
+	}
+	for i := 0; i < nmotif; i++ {
+		p := GenMotifProg(rngM, q)
+		hint := false
+		for _, op := range p.Ops {
+			if op.Kind == "Hint2" {
+				hint = true
+			}
+		}
+		if !hint {
+			progs = append(progs, p)
+		}
+	}
+	// systematic: a sum recorded once and requested again with proportional coefficients, with and without a
+	// constant term, the constant kept or scaled (the sparse builder's gate re-use table)
+	{
+		V := func(i int) Arg { return Arg{V: i} }
+		C := func(x int64) Arg { return Arg{Const: true, C: new(big.Int).Mod(big.NewInt(x), q)} }
+		for _, n := range []int64{2, 3, -1} {
+			for _, k := range []int64{5, 0} {
+				for _, k2 := range []int64{k, n * k} {
+					// one wire: Add(x, k); Add(n*x, k2)
+					progs = append(progs, &Prog{NbPub: 0, NbSec: 1, Ops: []Op{{Kind: "Add", Args: []Arg{V(0), C(k)}}, {Kind: "Mul", Args: []Arg{V(0), C(n)}},
+						{Kind: "Add", Args: []Arg{V(2), C(k2)}}}, Outs: []int{1, 3}})
+					// two wires: Add(x, y, k); Add(n*x, n*y, k2)
+					progs = append(progs, &Prog{NbPub: 0, NbSec: 2, Ops: []Op{{Kind: "Add", Args: []Arg{V(0), V(1), C(k)}}, {Kind: "Mul", Args: []Arg{V(0), C(n)}},
+						{Kind: "Mul", Args: []Arg{V(1), C(n)}}, {Kind: "Add", Args: []Arg{V(3), V(4), C(k2)}}}, Outs: []int{2, 5}})
+				}
+			}
+		}
+	}
 	var cases []string
 	var descs []interface{}
 	budgetInstr := 0
@@ -509,7 +546,7 @@ func runC05(args []string) int {
 			}
 			desc := c05Desc{t.String(), p.String(), len(tuples)}
 			overBudget := false
-			maxNodes := 0 // largest search tree of the Go enumeration over this case's tuples: a proxy for the Coq enumerator's cost
+			maxNodes := 0             // largest search tree of the Go enumeration over this case's tuples: a proxy for the Coq enumerator's cost
 			codes := map[string]int{} // tuple -> verdict code of the Go search (0 = agrees with the documented meaning)
 			nfail := 0
 			if os.Getenv("VERIF_DEBUG") != "" {
